@@ -20,6 +20,27 @@ CHECKS = {
  "C12": dict(level="fault_enumeration", tech="deterministic simulation with fault injection: history checking of the ordered sink/API log under handler-error and memory faults at every fault point, plus misuse calls",
    text="The ordered log of set_encoding / handle_chunk calls and API results is checked (encoding first, exactly one final zero-length chunk on success and none otherwise, silence after an error, use-after-error panics without output, prefix property without graceful flags) for the fault-free run and for a failure injected at every handler invocation index and limiter charge of each explored scenario.",
    ref="DESIGN.md section 5 C12"),
+ "C04": dict(level="exploration", tech="deterministic simulation: seeded selector programs x sloppy documents x delivery schedules; oracle = reference selector evaluator on the tree induced by the observed token stream",
+   text="Selector sets are generated as ASTs over the full supported grammar, printed to CSS for lol-html and evaluated directly on a reference tree (open-element stack over the observed tokens); the set of (selector, start tag) handler firings must equal the reference answer under sampled delivery schedules (cuts between tag name and attributes exercise the parked attribute request), and one selector is re-run alone. Programs and inputs are sampled: exploration.",
+   ref="DESIGN.md section 5 C04"),
+ "C05": dict(level="exploration", tech="deterministic simulation: ordered handler-invocation log vs a reference scope model (tree + selector evaluator), under delivery schedules and bundled registrations",
+   text="Every combination of element/text/comments/end-tag/document handlers over generated selectors and sloppy documents; the complete ordered invocation log (text merged per node) is compared with the log predicted by the reference scope model: scope, exactly-once end-tag handlers at the closing tag, document order, registration order with selector-scoped before document-level, end handlers once.",
+   ref="DESIGN.md section 5 C05"),
+ "C06": dict(level="exploration", tech="deterministic simulation: relational oracle between two configurations (H and H u O) of the same input and schedule, forcing scanner<->lexer hand-overs",
+   text="Each generated (document, handler set H, schedule) is executed under H and under H plus a random observer set O (appended or prepended); the projection of the history onto H's handlers and the sink bytes must be equal. Probe counters confirm that the two runs take different parser-mode switch paths.",
+   ref="DESIGN.md section 5 C06"),
+ "C07": dict(level="exploration", tech="deterministic simulation: random operation scripts x schedules x encodings; oracle = reference editor (R-edit) applied to the token stream and invocation log of the same run",
+   text="Random operation scripts over every mutation method (plain/streaming, both content types, several handlers per token, nested matches, void and foreign self-closing elements) are executed under sampled schedules and encodings; sink bytes must equal the reference editor written from the rustdoc of each method. Explicit-close and implicit-close regimes are reported separately; undetermined operation orders are executed but not compared.",
+   ref="DESIGN.md section 5 C07"),
+ "C13": dict(level="exploration", tech="deterministic simulation: cut at every byte of every multi-byte character x 36 encodings; oracle = encoding_rs whole-buffer decode/encode and the set_encoding log",
+   text="Text-heavy documents in every ASCII-compatible encoding (malformed/truncated sequences, ASCII-range trail bytes, text longer than the decoder buffer, BOM-like prefixes, meta charset at varied positions) under every 1-cut and sampled schedules; strings read by handlers must equal whole-buffer decoding of the corresponding bytes, inserted content must equal encode() of the escaped content, and the encoding switch must happen once, to the first valid declaration, notified at the end of the declaring tag.",
+   ref="DESIGN.md section 5 C13"),
+ "C14": dict(level="exploration", tech="deterministic simulation: every 1-cut and sampled schedules; oracle = independent single-token parsers over the reported byte ranges, tiling, and equality with the single-write run",
+   text="With full-capture observers every reported range is sliced from the original input and validated by an independent tag/comment/doctype/attribute parser, ranges must tile the document with text chunk ranges contiguous and covering their node, and all ranges must be identical under every schedule and when earlier content is rewritten.",
+   ref="DESIGN.md section 5 C14"),
+ "C16": dict(level="exploration", tech="deterministic simulation: chunk boundary at every byte of every generated tag; oracle = independent tag parser (R-tag) and a read-after-write model",
+   text="Generated start tags with arbitrary attribute syntax in HTML/SVG/MathML/integration-point context and random encodings; every 1-cut of the document is enumerated; every getter is compared with R-tag over the tag's source bytes, lookups are case-varied, and reads after set/remove/rename are compared with a per-token model.",
+   ref="DESIGN.md section 5 C16"),
  "C01": dict(level="exploration", tech="deterministic simulation: seeded delivery schedules (cut sweeps, empty writes, early close, drop) with conservation oracle",
    text="Seeded exploration of (document, encoding, strict, observer set) x delivery schedules with a byte-conservation oracle checked during and after each run; every 1-cut (and 2-cut for small documents) of each explored document is enumerated, documents and configurations are sampled. Exploration is the honest level: inputs are unbounded, so a clean batch is evidence, not proof.",
    ref="DESIGN.md section 5 C01"),
